@@ -42,7 +42,8 @@ ASSERT_EXEMPT = {
      'isinstance(additional_data, bytes)'):
         'states the documented type of an argument (arguments are assumed '
         'well-typed)',
-    ('connection.H2Connection._receive_headers_frame', 'not p_frames'):
+    ('connection.H2Connection._receive_headers_frame',
+     'not <_receive_priority_frame#0>'):
         '_receive_priority_frame returns an empty frame list on every path '
         '(rule C23 FLOW.priority-handler)',
     ('windows.WindowManager.__init__',
@@ -52,7 +53,7 @@ ASSERT_EXEMPT = {
     ('stream.H2Stream.upgrade', 'self.stream_id == 1'):
         'the only caller passes streams[1] right after creating stream 1 '
         '(rule C25 ORD.upgrade)',
-    ('stream._decode_headers', 'isinstance(header, HeaderTuple)'):
+    ('stream._decode_headers', 'isinstance(<each headers>, HeaderTuple)'):
         'hpack\'s decoder yields HeaderTuple objects and every pipeline '
         'stage keeps the class (rule C15 PIPE.class)',
 }
@@ -233,7 +234,8 @@ class Discharger:
                     continue
                 txt = unparse(nd.test)
                 why = None
-                ex = ASSERT_EXEMPT.get((q, txt))
+                ex = ASSERT_EXEMPT.get((q, txt)) or \
+                    ASSERT_EXEMPT.get((q, self._canon_assert(fi, nd.test)))
                 if ex is None:
                     ex = self._assert_by_meaning(fi, nd)
                 if ex is not None:
@@ -327,17 +329,110 @@ class Discharger:
                         return True
         return False
 
+    def _canon_assert(self, fi, test):
+        """The assertion with every local replaced by where its value comes
+        from, so that the exemption table does not depend on what a local is
+        called: <callee> for `x = ...callee(..)`, <callee#i> for the i-th
+        target of a tuple assignment from a call, <each ITER> for a loop
+        variable."""
+        names = {}
+        for n in walk_own(fi.node):
+            if not (isinstance(n, ast.Name) and
+                    isinstance(n.ctx, ast.Store)):
+                continue
+            par = getattr(n, '_parent', None)
+            desc = None
+            if isinstance(par, ast.Assign) and par.targets[0] is n and \
+                    isinstance(par.value, ast.Call):
+                f = par.value.func
+                desc = '<%s>' % (f.attr if isinstance(f, ast.Attribute)
+                                 else getattr(f, 'id', '?'))
+            elif isinstance(par, ast.Tuple):
+                pp = getattr(par, '_parent', None)
+                if isinstance(pp, ast.Assign) and pp.targets[0] is par and \
+                        isinstance(pp.value, ast.Call):
+                    f = pp.value.func
+                    desc = '<%s#%d>' % (
+                        f.attr if isinstance(f, ast.Attribute)
+                        else getattr(f, 'id', '?'), par.elts.index(n))
+            elif isinstance(par, ast.For) and par.target is n:
+                desc = '<each %s>' % unparse(par.iter)
+            if n.id in names and names[n.id] != desc:
+                desc = None
+            names[n.id] = desc
+        names = {k: v for k, v in names.items() if v}
+        if not names:
+            return unparse(test)
+
+        class R(ast.NodeTransformer):
+            def visit_Name(self, n):
+                if n.id in names:
+                    return ast.Name(id=names[n.id], ctx=n.ctx)
+                return n
+        import copy
+        return unparse(R().visit(copy.deepcopy(test)))
+
+    def _single_assign(self, fi, name):
+        """The value expression of the only binding of a local, or None."""
+        if name in fi.params or name in fi.kwonly:
+            return None
+        vals = []
+        for n in walk_own(fi.node):
+            if isinstance(n, ast.Name) and n.id == name and \
+                    isinstance(n.ctx, (ast.Store, ast.Del)):
+                par = getattr(n, '_parent', None)
+                if isinstance(par, ast.Assign) and len(par.targets) == 1 \
+                        and par.targets[0] is n:
+                    vals.append(par.value)
+                else:
+                    return None
+        return vals[0] if len(vals) == 1 else None
+
+    def _is_first_event_of(self, fi, test, inp, cls):
+        """test says isinstance(E, cls) where E is element 0 of the list the
+        state machine returned for input `inp` (through any chain of
+        once-assigned locals)."""
+        if not (isinstance(test, ast.Call) and
+                isinstance(test.func, ast.Name) and
+                test.func.id == 'isinstance' and len(test.args) == 2 and
+                isinstance(test.args[1], ast.Name) and
+                test.args[1].id == cls):
+            return False
+        e = test.args[0]
+        for _ in range(4):
+            if isinstance(e, ast.Name):
+                e = self._single_assign(fi, e.id)
+            else:
+                break
+        if not (isinstance(e, ast.Subscript) and
+                isinstance(e.slice, ast.Constant) and e.slice.value == 0):
+            return False
+        src = e.value
+        for _ in range(4):
+            if isinstance(src, ast.Name):
+                src = self._single_assign(fi, src.id)
+            else:
+                break
+        if not (isinstance(src, ast.Call) and
+                isinstance(src.func, ast.Attribute) and
+                src.func.attr == 'process_input' and len(src.args) == 1):
+            return False
+        v = self.m.try_fold(src.args[0], fi.module, fi.cls)
+        return isinstance(v, EnumVal) and v.name == inp
+
     def _assert_by_fsm(self, fi, nd, txt):
         fsm = self.eng.fsm
         from .spec.rfc7540_stream import INITIAL, feedable
         if fi.qual == 'stream.H2Stream.locally_pushed' and \
-                txt == 'not events':
+                self._canon_assert(fi, nd.test) == 'not <process_input>':
             r = fsm.step_impl(INITIAL, 'SEND_PUSH_PROMISE')
             if r[0] == 'ok' and r[1] == ():
                 return 'a fresh stream answers SEND_PUSH_PROMISE with no ' \
                        'event (extracted cell (IDLE, SEND_PUSH_PROMISE))'
         if fi.qual == 'stream.H2Stream.receive_alt_svc' and \
-                txt == 'isinstance(events[0], AlternativeServiceAvailable)':
+                self._is_first_event_of(
+                    fi, nd.test, 'RECV_ALTERNATIVE_SERVICE',
+                    'AlternativeServiceAvailable'):
             order, _ = fsm.reachable(feedable)
             for s in order:
                 r = fsm.step_impl(s, 'RECV_ALTERNATIVE_SERVICE')
